@@ -13,6 +13,28 @@ class CannotEval(Exception):
     pass
 
 
+class AssertFails(Exception):
+    pass
+
+
+class Sample:
+    """A sample value with methods: `methods` maps a method name to its result (or to a function of the arguments).  Rules
+    use it to fold code over objects whose only relevant behaviour is what a few getters return (`candidate.Match(..)`)."""
+
+    def __init__(self, label, methods):
+        self.label = label
+        self.methods = methods
+
+    def call(self, name, args):
+        if name not in self.methods:
+            raise CannotEval(f"sample method {name}")
+        m = self.methods[name]
+        return m(*args) if callable(m) else m
+
+    def __repr__(self):
+        return f"<{self.label}>"
+
+
 _BIN = {
     ast.Add: operator.add, ast.Sub: operator.sub, ast.Mult: operator.mul, ast.FloorDiv: operator.floordiv,
     ast.Mod: operator.mod, ast.BitAnd: operator.and_, ast.BitOr: operator.or_, ast.LShift: operator.lshift, ast.RShift: operator.rshift,
@@ -22,7 +44,7 @@ _CMP = {
     ast.In: lambda a, b: a in b, ast.NotIn: lambda a, b: a not in b, ast.Is: operator.is_, ast.IsNot: operator.is_not,
 }
 _CALLS = {"len": len, "range": range, "abs": abs, "min": min, "max": max, "int": int, "set": set, "tuple": tuple, "list": list, "any": any, "all": all,
-          "bool": bool, "frozenset": frozenset, "sorted": sorted, "sum": sum}
+          "bool": bool, "frozenset": frozenset, "sorted": sorted, "sum": sum, "bytes": bytes}
 _TYPES = {"int": int, "float": float, "str": str, "bool": bool, "tuple": tuple, "list": list, "set": set, "frozenset": frozenset, "dict": dict, "bytes": bytes}
 _STRM = ("strip", "lstrip", "rstrip", "lower", "upper", "startswith", "endswith", "find", "count", "replace", "translate", "isalpha")
 _SETM = ("isdisjoint", "intersection", "issubset", "issuperset", "union", "difference")
@@ -84,10 +106,42 @@ def ev(node, env, calls=None):
             return base[go(n.slice)]
         if isinstance(n, ast.IfExp):
             return go(n.body) if go(n.test) else go(n.orelse)
+        if isinstance(n, ast.Lambda):
+            if n.args.vararg or n.args.kwarg or n.args.kwonlyargs or n.args.defaults:
+                raise CannotEval("lambda")
+            names = [a.arg for a in n.args.args]
+            return lambda *a, _n=n, _names=names: ev(_n.body, {**env, **dict(zip(_names, a))}, calls)
         if isinstance(n, ast.Call):
             key = ast.unparse(n.func)
             if key in calls:
                 return calls[key](*[go(a) for a in n.args])
+            # a function defined in the folded block itself (run_pure binds nested defs), or a lambda held in a local
+            if isinstance(n.func, ast.Name) and callable(env.get(n.func.id)) and not n.keywords:
+                return env[n.func.id](*[go(a) for a in n.args])
+            if isinstance(n.func, ast.Name) and n.func.id in ("sorted", "filter", "map", "min", "max") and (n.keywords or n.func.id in ("filter", "map")):
+                kws = {k.arg: go(k.value) for k in n.keywords}
+                if not set(kws) <= {"key", "reverse", "default"} or any(k in kws and not callable(kws[k]) for k in ("key",)):
+                    raise CannotEval("keywords")
+                args_ = [go(a) for a in n.args]
+                if n.func.id in ("filter", "map"):
+                    if kws or not args_ or not (callable(args_[0]) or args_[0] is None):
+                        raise CannotEval(n.func.id)
+                    return list({"filter": filter, "map": map}[n.func.id](*args_))
+                return {"sorted": sorted, "min": min, "max": max}[n.func.id](*args_, **kws)
+            if key in ("operator.itemgetter", "itemgetter") and n.args and not n.keywords and all(isinstance(a, ast.Constant) for a in n.args):
+                return operator.itemgetter(*[a.value for a in n.args])
+            # a method of a sample object handed in by the rule (see Sample)
+            if isinstance(n.func, ast.Attribute) and not n.keywords:
+                try:
+                    recv_ = go(n.func.value)
+                except CannotEval:
+                    recv_ = None
+                if isinstance(recv_, Sample):
+                    return recv_.call(n.func.attr, [go(a) for a in n.args])
+                if isinstance(recv_, list) and n.func.attr in ("append", "extend", "insert", "sort", "reverse") and n.func.attr != "sort":
+                    return getattr(recv_, n.func.attr)(*[go(a) for a in n.args])
+                if isinstance(recv_, set) and n.func.attr in ("add", "discard"):
+                    return getattr(recv_, n.func.attr)(*[go(a) for a in n.args])
             if isinstance(n.func, ast.Name) and n.func.id in _CALLS and not n.keywords:
                 return _CALLS[n.func.id](*[go(a) for a in n.args])
             text = " ".join(ast.unparse(n).split())
@@ -142,11 +196,24 @@ class _Cont(Exception):
     pass
 
 
-def run_pure(fn: ast.FunctionDef, args, calls=None, fuel=2000, extra=None):
+def run_block(stmts, env, calls=None, fuel=2000):
+    """Fold a statement list (the body of one interpreter arm, say) over an environment of literal sample values; stores
+    into containers that live in the environment (`localScope[ref] = ..`) are performed on them.  -> the environment."""
+    fn = ast.FunctionDef(name="_block", args=ast.arguments(posonlyargs=[], args=[], kwonlyargs=[], kw_defaults=[], defaults=[]), body=list(stmts), decorator_list=[])
+    out = {}
+    ret = run_pure(fn, [], calls, fuel, env, out)
+    out["$return"] = ret
+    return out
+
+
+def run_pure(fn: ast.FunctionDef, args, calls=None, fuel=2000, extra=None, env_out=None):
     """Fold a small *pure* helper (local assignments, for/if/return/break/continue over `ev` expressions) on one tuple of
     literal arguments.  Anything else raises CannotEval."""
-    env = {a.arg: v for a, v in zip(fn.args.args, args)}
-    env.update(extra or {})
+    env = dict(extra or {})
+    env.update({a.arg: v for a, v in zip(fn.args.args, args)})
+    if env_out is not None:
+        env_out.update(env)
+        env = env_out
     left = [fuel]
 
     def block(stmts):
@@ -156,10 +223,29 @@ def run_pure(fn: ast.FunctionDef, args, calls=None, fuel=2000, extra=None):
                 raise CannotEval("fuel")
             if isinstance(s, ast.Expr) and isinstance(s.value, ast.Constant):
                 continue
+            if isinstance(s, ast.Expr) and isinstance(s.value, ast.Call):
+                ev(s.value, env, calls)  # for its effect (an error signal from the calls table, a list append)
+                continue
+            if isinstance(s, ast.Assert):
+                try:
+                    holds = bool(ev(s.test, env, calls))
+                except CannotEval:
+                    continue  # a test on things the fold does not model (isinstance of a repository class): assumed to hold
+                if not holds:
+                    raise AssertFails(ast.unparse(s.test))
+                continue
+            if isinstance(s, ast.FunctionDef) and not s.decorator_list and not s.args.vararg and not s.args.kwarg:
+                env[s.name] = (lambda *a, _d=s: run_pure(_d, list(a), calls, max(left[0], 0), env))
+                continue
             if isinstance(s, ast.Return):
                 raise _Ret(ev(s.value, env, calls) if s.value is not None else None)
             if isinstance(s, ast.Assign) and len(s.targets) == 1 and isinstance(s.targets[0], ast.Name):
                 env[s.targets[0].id] = ev(s.value, env, calls)
+            elif isinstance(s, ast.Assign) and len(s.targets) == 1 and isinstance(s.targets[0], ast.Subscript) and not isinstance(s.targets[0].slice, ast.Slice):
+                base = ev(s.targets[0].value, env, calls)
+                if not isinstance(base, (dict, list)):
+                    raise CannotEval("store into a non-container")
+                base[ev(s.targets[0].slice, env, calls)] = ev(s.value, env, calls)
             elif isinstance(s, ast.AugAssign) and isinstance(s.target, ast.Name) and type(s.op) in _BIN:
                 env[s.target.id] = _BIN[type(s.op)](env[s.target.id], ev(s.value, env, calls))
             elif isinstance(s, ast.If):
